@@ -2,8 +2,16 @@
    Only statements closed by [exact], their assumptions, and non-vacuity examples. *)
 From Coq Require Import List Ascii String.
 From GT Require Import Base.GoStr Md.Parser Tree.Tree Tree.Gen Tree.Grower Api.Simple Spec.Spec Spec.Classify Spec.Spelling
-  Proofs.GenItems Proofs.GrowRender Proofs.BuildTrie Proofs.OutputText Proofs.SpelledTop.
+  Proofs.GenItems Proofs.GrowRender Proofs.BuildTrie Proofs.OutputText Proofs.SpelledTop Proofs.SpelledMixed.
 Import ListNotations.
+
+(* the same for the MIXED notation: the first roots written as bullets, and from some later root on every root
+   written as a # heading (the switch can happen only once: after the first heading a column-0 bullet is a child) *)
+Theorem C01_text_rule_mixed : forall bf ni ms f1 f2, mspells ms f1 f2 ->
+  exists ws, output_md (text_cfg bf ni) (mbytes_of ms) = (ws, Ok tt) /\
+             chunks_text ws = Some (render bf (map trie_of (f1 ++ f2))).
+Proof. exact text_rule_mixed. Qed.
+Print Assumptions C01_text_rule_mixed.
 
 (* link (iv): bottom-up branch assembly + text spreader = top-down renderer, any tree *)
 Theorem C01_grow_is_render : forall bf t, Out.Spreader.text_of (grow_root bf t) = render_root bf t.
